@@ -23,11 +23,9 @@ Theorem C27_mode_safe_numbervars_refuted :
   exists t s o i, check_mode [t; s; o] (site_modes "_builtin_numbervars") = Accept i /\ body_numbervars [t; s; o] = OStuck "AttributeError".
 Proof. exists (PSlot (-1)), (PInt 0), (PSlot (-2)), 0%nat. split; vm_compute; reflexivity. Qed.
 
-(* X is "a" + 1: 'g' accepts a ground term containing a string, `a + b` raises TypeError (only ValueError and
-   ZeroDivisionError are converted by compute_function).   program: `q :- X is "a" + 1. query(q).` *)
-Theorem C27_is_safe_refuted :
-  exists a b i, check_mode [a; b] (site_modes "_builtin_is") = Accept i /\ body_is [a; b] = OStuck "TypeError".
-Proof. exists (PSlot (-1)), (PApp "'+'" [PStr """a"""; PInt 1]), 0%nat. split; vm_compute; reflexivity. Qed.
+(* (removed) C27_is_safe_refuted -- `X is "a" + 1` raised TypeError because compute_function converted only ValueError and
+   ZeroDivisionError.  Repo commit 168ee04 added OverflowError and TypeError to that `except` clause; the translator reads
+   the clause (arith_caught), the model now answers OArithError, and the witness no longer exists. *)
 
 (* "a" < 1: the comparison `a_value < b_value` itself raises TypeError.   program: `q :- "a" < 1. query(q).` *)
 Theorem C27_compare_safe_refuted :
